@@ -12,7 +12,7 @@ from collections import OrderedDict
 from .core import Eq, Fail, Note
 from .ref import KMap, popcount
 
-_REC = {'installed': False, 'funcs': {}, 'codegen_events': 0, 'compile_events': 0}
+_REC = {'installed': False, 'funcs': {}, 'codegen_events': 0, 'compile_events': 0, 'py_compile': 0, 'lambdify': 0, 'func_builder': 0}
 
 
 # --------------------------------------------------------------------------- recorder
@@ -45,6 +45,22 @@ def install_recorder():
         return out
 
     od.do_codegen, od.do_compile = do_codegen, do_compile
+    # lower-level events: the builtin compile() as seen from kingdon.codegen, lambdify, func_builder
+    import builtins
+    import kingdon.codegen as cg
+
+    def counting_compile(*a, **k):
+        _REC['py_compile'] += 1
+        return builtins.compile(*a, **k)
+    cg.compile = counting_compile
+    for name in ('lambdify', 'func_builder'):
+        if hasattr(cg, name):
+            orig = getattr(cg, name)
+
+            def wrapped(*a, __orig=orig, __name=name, **k):
+                _REC[__name] += 1
+                return __orig(*a, **k)
+            setattr(cg, name, wrapped)
     _REC['installed'] = True
 
 
@@ -54,7 +70,12 @@ def recorder_snapshot():
 
 
 def recorder_events():
-    return _REC['codegen_events'] + _REC['compile_events']
+    """total number of generation/compilation events observed so far (any kind)."""
+    return _REC['codegen_events'] + _REC['compile_events'] + _REC['py_compile'] + _REC['lambdify'] + _REC['func_builder']
+
+
+def recorder_counts():
+    return {k: v for k, v in _REC.items() if k not in ('installed', 'funcs')}
 
 
 # --------------------------------------------------------------------------- algebras
